@@ -7,10 +7,38 @@ CORR_NAME = "dfs_in_order / dfs_pre_order_mut machines vs. recording visitors on
 ASSUMPTIONS = [
     "Model/Traversal.v is a hand-written explicit-stack model of src/ir/traversals.rs, tied to the code by comparing the complete callback log of recording visitors on every generated function (this run)",
     "per-instruction callback shape (visited fields, skip_visit, default hook bodies) is regenerated from src/ir/mod.rs and crates/macro/src/lib.rs by the translator",
-    "'no call-stack growth' is a property of the Rust text: the model is iterative by construction (recursion on fuel only); deep nesting is exercised by the thorough tier on a small thread stack",
+    "'no call-stack growth' is a property of the Rust text: the model is iterative by construction (recursion on fuel only); deep nesting (10^5, thorough 10^6) is exercised on a 256 KiB thread stack for block / loop / if / if-else towers: parse, both traversals with counting visitors, GC, emit",
     "visitors that mutate the tree during dfs_pre_order_mut are outside the model (the recording visitor mutates nothing)",
 ]
 
 
+def deep_nesting(thorough):
+    """both traversals, the GC pass and emission on bodies nested 10^5 (thorough: 10^6) deep, on a 256 KiB thread stack, each in
+    its own process: a stack overflow kills that process only"""
+    from .. import core
+    ov, runs = [], []
+    depth = 1000000 if thorough else 100000
+    for kind, instrs, starts in (("block", lambda d: d + 1, lambda d: d + 1), ("loop", lambda d: d + 1, lambda d: d + 1),
+                                 ("if", lambda d: 2 * d + 1, lambda d: 2 * d + 1), ("ifelse", lambda d: 3 * d + 3, lambda d: 2 * d + 1)):
+        rc, o, dt = core.sh([core.vh(), "deep", str(depth), kind, "256"], timeout=900)
+        runs.append({"kind": kind, "depth": depth, "stack_kib": 256, "rc": rc, "wall_s": round(dt, 1), "out": o.strip()[-120:]})
+        what = None
+        if rc != 0:
+            what = "nesting depth %d of `%s`: the process died (rc=%s) on a 256 KiB stack: %s" % (depth, kind, rc, o.strip()[-200:])
+        else:
+            f = o.strip().split()
+            want = ["ok", str(instrs(depth)), str(starts(depth)), str(starts(depth)), "false", str(instrs(depth))]
+            if f[:6] != want:
+                what = "nesting depth %d of `%s`: visited (instructions, starts, ends, bad nesting, mut instructions) = %s, expected %s" % (depth, kind, f[1:6], want[1:])
+        if what:
+            ov.append({"class": "deep-nesting", "what": what, "input": {"generator": "vh deep %d %s 256" % (depth, kind)},
+                       "replay_cmd": "vh deep <depth> <kind> <stack KiB>  (harness/src/deep.rs): parse, dfs_in_order, dfs_pre_order_mut, gc, emit on a small thread stack"})
+    return ov, runs
+
+
 def correspondence(ctx, thorough, search):
-    return run_body(ctx, thorough, search, "C16", stages={1, 2, 3, 6, 7})
+    r = run_body(ctx, thorough, search, "C16", stages={1, 2, 3, 6, 7})
+    ov, runs = deep_nesting(thorough)
+    r["oracle_violations"] += ov
+    r.setdefault("coverage", {})["deep_nesting"] = runs
+    return r
